@@ -12,13 +12,15 @@ ID = "C18"
 LEAN_MODEL_TARGETS = ["drv_c18"]
 LEAN_PROOF_TARGETS = ["PyroProps.C18"]
 AUDIT_FILES = ["PyroModel/Lock.lean", "PyroModel/Pool.lean", "PyroModel/Gen/C18.lean", "PyroProofs/Lock.lean",
-               "PyroProofs/Pool.lean", "PyroProofs/PoolProbe.lean", "PyroProps/C18.lean"]
+               "PyroProofs/Pool.lean", "PyroProofs/PoolProbe.lean", "PyroModel/PoolConn.lean", "PyroProofs/PoolConn.lean",
+               "PyroProps/C18.lean"]
 THEOREMS = ["Pyro.C18.C18_gen_shape_ok", "Pyro.C18.C18_gen_source", "Pyro.C18.C18_gen_behaviour", "Pyro.C18.C18_methods_atomic",
             "Pyro.C18.C18_bounded", "Pyro.C18.C18_once_or_refused", "Pyro.C18.C18_refused_iff_full",
             "Pyro.C18.C18_no_lost_wakeup", "Pyro.C18.C18_pending_runs", "Pyro.C18.C18_close",
             "Pyro.C18.C18_close_exits", "Pyro.C18.C18_race_overlimit", "Pyro.C18.C18_race_close",
+            "Pyro.C18.C18_gen_conn", "Pyro.C18.C18_conn_closed", "Pyro.C18.C18_refusal_bounded",
             "Pyro.Lock.atomic", "Pyro.Lock.book"]
-SUITES = ["sequential", "schedules"]
+SUITES = ["sequential", "schedules", "connection"]
 RULE = ("(a) sequential: generated op lists (submit / let job k end normally or by raising / close) for pool sizes 1<=min<=max<=3 run on the REAL Pool "
         "with real Worker threads under the deterministic scheduler; after every op the workers are run to rest under a seeded "
         "random interleaving and |idle|, |busy|, closed, per-job (accepted by which worker | refused full | refused closed, "
@@ -28,7 +30,12 @@ RULE = ("(a) sequential: generated op lists (submit / let job k end normally or 
         "random schedules; every final state must be one the coarse model reaches under some interleaving, and the oracle checks "
         "the property directly at every scheduling point. non-trivial = a run with >= 2 context switches between pool threads "
         "or a sequential list with >= 1 accepted job; distinct = distinct (scenario, schedule) / op list; (c) oracle only: "
-        "sequential histories in which Thread.start() of a new worker fails (RuntimeError) — the pool must be as before")
+        "sequential histories in which Thread.start() of a new worker fails (RuntimeError) — the pool must be as before; "
+        "(d) connection: generated scripts (handshake ok/refused/raising, 0..8 served requests then one of the 5 ways a request "
+        "ends, disconnect hook ok/raising; refusing handshake ok/raising; accept step with COMMTIMEOUT set or not and pool full "
+        "or not) run on the REAL ClientConnectionJob / denyConnection / SocketServer_Threadpool.events with in-memory fakes: "
+        "the sequence of effects on the connection's socket vs the model, and the oracle: closed exactly once as the last effect, "
+        "hook once, no exception out, timeout set before the refusing handshake reads")
 ASSUMPTIONS = ["single set/attribute operations are atomic (GIL)",
                "preemption matters only at accesses of Pool.idle/busy/closed, Worker.job_available, Pool.count_lock, sleep and join",
                "the OS scheduler is replaced by the enumerated / random schedules",
@@ -335,6 +342,8 @@ def extract():
     from Pyro5 import config
     pr = c18_probe.probe()
     facts = pr["facts"]
+    from props import c18_conn
+    cn = c18_conn.probe_tables()
 
     def lst(name, items):
         return "def %s : List String := [\n  %s]\n" % (name, ",\n  ".join(_lean_str(x) for x in items))
@@ -371,6 +380,11 @@ def extract():
             + tab("startFailTable", "Pool.process(job) when Thread.start() raises RuntimeError", pr["startfail"])
             + tab("notifyTable", "Pool.notify_done(worker)", pr["notify"])
             + tab("closeTable", "Pool.close()", pr["close"])
+            + "/-! the life of one connection: the real ClientConnectionJob / events() run on fakes (harness/props/c18_conn.py);\n"
+              "    effects: 1 settimeout, 2 handshake, 3 refusing handshake, 4 request, 5 disconnect hook, 6 close, 7 accept, 8 handed to the pool -/\n"
+            + tab("connJobTable", "ClientConnectionJob.__call__: [[handshake 0 ok/1 refused/2 raises, hook raises, COMMTIMEOUT set, exception came out], requests (0 served, 1 ConnectionClosed, 2 OSError, 3 Security, 4 Timeout, 5 other), effects]", cn["job"])
+            + tab("connDenyTable", "denyConnection: [[refusing handshake raises, COMMTIMEOUT set, exception came out], [], effects]", cn["deny"])
+            + tab("acceptTable", "events(): [[COMMTIMEOUT set, pool full, refusing handshake raises, exception came out, socket had its timeout when the refusing handshake read], [], effects]", cn["accept"])
             + "end Pyro.Gen.C18\n")
 
 
@@ -792,6 +806,86 @@ def _start_faults(ctx, n):
             return
 
 
+# ------------------------------------------------------------------------------------------------------
+# one connection: the real job / accept step on fakes (suite "connection" + oracle clauses of C18_conn_closed / C18_refusal_bounded)
+# ------------------------------------------------------------------------------------------------------
+def conn_oracle(kind, case, trace, info):
+    """(signature, description) if the real code violates the property on this script, else None"""
+    if info.get("raised"):
+        return ("conn:%s-raises" % kind, "%s came out of %s" % (info["raised"], kind))
+    if kind in ("job", "deny") or (kind == "accept" and case["full"]):
+        if info.get("closed", 0) < 1 or 6 not in trace:
+            return ("conn:not-closed", "the connection's socket is not closed when the server stops serving it (%s)" % kind)
+        if trace[-1] != 6 or trace.count(6) != 1:
+            return ("conn:close-not-last", "socket closed %d times / used after close: effects %r" % (trace.count(6), trace))
+    if kind == "job" and case["hs"] == 0 and trace.count(5) != 1:
+        return ("conn:hook-count", "disconnect hook ran %d times for one connection" % trace.count(5))
+    if kind == "accept":
+        if case["full"]:
+            if 3 not in trace:
+                return ("conn:refused-silently", "pool full and the client got no refusing handshake")
+            if case["ct"] and info.get("timeout_at_handshake") is None:
+                return ("conn:refusal-unbounded", "COMMTIMEOUT is configured but the socket has no timeout when the accept loop starts "
+                                                  "to read the refused client's handshake: a silent client parks the accept loop")
+        elif 8 not in trace:
+            return ("conn:not-handed-over", "pool has room and the connection was not handed to it")
+    return None
+
+
+def _connection(ctx, n, with_model=True):
+    from props import c18_conn as C
+    rng = ctx.sub_rng("conn")
+    lines, reals, cases = [], [], []
+    seen = set()
+    # corpus first
+    for name, c in corpus_cases():
+        if "conn" in c:
+            cases.append(c["conn"])
+    for _ in range(n):
+        r = rng.random()
+        if r < 0.7:
+            hs = rng.choice([0, 0, 0, 1, 2])
+            reqs = ([0] * rng.choice([0, 0, 1, 2, 5, 8]) + [rng.randint(1, 5)]) if hs == 0 else []
+            cases.append({"kind": "job", "hs": hs, "hook": rng.randint(0, 1), "reqs": reqs, "ct": rng.randint(0, 1)})
+        elif r < 0.8:
+            cases.append({"kind": "deny", "raises": rng.randint(0, 1), "ct": rng.randint(0, 1)})
+        else:
+            cases.append({"kind": "accept", "ct": rng.randint(0, 1), "full": rng.randint(0, 1), "raises": rng.randint(0, 1)})
+    for c in cases:
+        k = c["kind"]
+        if k == "job":
+            trace, info = C.run_job(C.HS[c["hs"]], [C.REQ[i] for i in c["reqs"]], bool(c["hook"]), bool(c["ct"]))
+            line = "job %d %d %s" % (c["hs"], c["hook"], " ".join(map(str, c["reqs"])))
+            real = (",".join(map(str, trace)) or "-") + " done"
+        elif k == "deny":
+            trace, info = C.run_deny(bool(c["raises"]), bool(c["ct"]))
+            line = "deny %d" % c["raises"]
+            real = ",".join(map(str, trace)) or "-"
+        else:
+            trace, info = C.run_accept(bool(c["ct"]), bool(c["full"]), bool(c["raises"]))
+            line = "accept %d %d %d" % (c["ct"], c["full"], c["raises"])
+            real = ",".join(map(str, trace)) or "-"
+        ctx.evaluations += 1
+        ctx.count("conn:" + k)
+        if len(trace) > 2:
+            ctx.nontriv("conn " + line)
+        bad = conn_oracle(k, c, trace, info)
+        if bad and bad[0] not in seen:
+            seen.add(bad[0])
+            ctx.fail(bad[0], "%s; script: %s (effects %r)" % (bad[1], line, trace), {"conn": c})
+        lines.append(line.strip())
+        reals.append(real)
+    if with_model:
+        outs = common.run_driver("drv_c18", lines)
+        ctx.corr_cases += len(lines)
+        nbad = 0
+        for l, r, o, c in zip(lines, reals, outs, cases):
+            if r != o:
+                nbad += 1
+                if nbad <= 3:
+                    ctx.mismatch("connection", {"conn": c, "line": l}, r, o)
+
+
 def refusal_path(ctx):
     common.repo_on_path()
     import socket
@@ -853,6 +947,34 @@ def refusal_path(ctx):
                      % (t2, why), {"step": "client2"})
         if srv.pool.num_workers() > 1:
             ctx.fail("refusal-path:workers", "pool grew beyond THREADPOOL_SIZE=1", {"step": "client2"})
+        # the same refusal as seen through the real client class, with every serializer a client may be configured with
+        # (the server answers a refusal with the marshal serializer, whatever the client sent)
+        from Pyro5 import client
+        uri = daemon.uriFor(core.DAEMON_NAME)
+        for sername in sorted(serializers.serializers):
+            acc = threading.Thread(target=lambda: srv.events([srv.sock]), daemon=True)
+            acc.start()
+            prox = client.Proxy(uri)
+            prox._pyroSerializer = sername
+            try:
+                prox._pyroBind()
+                seen = ("connected", "")
+            except errors.CommunicationError as e:
+                seen = ("CommunicationError", str(e))
+            except Exception as e:      # noqa
+                seen = (type(e).__name__, str(e)[:120])
+            acc.join(10.0)
+            ctx.evaluations += 1
+            ctx.count("refusal-path:proxy:" + seen[0])
+            if seen[0] != "CommunicationError" or "no free workers" not in seen[1]:
+                ctx.fail("refusal-path:client", "a %s Proxy refused by a full 1-worker pool got %s %r instead of a CommunicationError that "
+                         "says 'no free workers'" % (sername, seen[0], seen[1]), {"step": "proxy", "serializer": sername})
+            elif prox._pyroConnection is not None:
+                ctx.fail("refusal-path:client", "a refused %s Proxy keeps a connection" % sername, {"step": "proxy", "serializer": sername})
+            try:
+                prox._pyroRelease()
+            except Exception:
+                pass
         done.clear()
         c1.close()
         if not done.wait(10.0):
@@ -885,6 +1007,7 @@ def correspondence(ctx):
     common.repo_on_path()
     _sequential(ctx, ctx.n(200, 3000))
     _start_faults(ctx, ctx.n(60, 800))
+    _connection(ctx, ctx.n(300, 6000))
     ctx._c18_done = True
     _schedules(ctx, with_model=True)
 
@@ -895,6 +1018,7 @@ def oracle(ctx):
     if getattr(ctx, "_c18_done", False) and not ctx.search_mode:
         return        # the exploration in `correspondence` already ran the property oracle on every schedule
     _start_faults(ctx, ctx.n(60, 800))
+    _connection(ctx, ctx.n(300, 6000), with_model=False)
     _schedules(ctx, with_model=False)
 
 
@@ -908,6 +1032,22 @@ def replay(ctx, case):
         if not ctx.failures:
             print("not reproduced (second client of a full 1-worker pool read CONNECTFAIL 'no free workers')")
         return 1 if ctx.failures else 0
+    if "conn" in c:
+        common.repo_on_path()
+        from props import c18_conn as C
+        cc = c["conn"]
+        if cc["kind"] == "job":
+            trace, info = C.run_job(C.HS[cc["hs"]], [C.REQ[i] for i in cc["reqs"]], bool(cc["hook"]), bool(cc["ct"]))
+        elif cc["kind"] == "deny":
+            trace, info = C.run_deny(bool(cc["raises"]), bool(cc["ct"]))
+        else:
+            trace, info = C.run_accept(bool(cc["ct"]), bool(cc["full"]), bool(cc["raises"]))
+        print("script", cc)
+        print("effects on the socket (1 settimeout 2 handshake 3 refusing handshake 4 request 5 hook 6 close 7 accept 8 handed over):", trace)
+        print("info", info)
+        bad = conn_oracle(cc["kind"], cc, trace, info)
+        print("VIOLATION reproduced: %s — %s" % bad if bad else "not reproduced (the property holds on this script)")
+        return 1 if bad else 0
     if "schedule" not in c:
         print(json.dumps(case.get("no_longer_checks")))
         print(json.dumps(f))
